@@ -11,6 +11,8 @@ def check(run):
                      "each at most once, nothing after the fault; every behaviour is rebuilt as an ExprAST and executed by the real evaluator; non-trivial = at least two observable invocations")
     run.rules.append("leg T: random programs (depth <= 4, up to 5 statements, wide value domain, scripted faults) executed by the real evaluator, every observable validated by TLC against Den")
     ef.eval_model_and_replay(run, "shapes-d1", ef.mceval_cfg("c07-d1", depth=1, full_faults=True), "C07")
+    # handlers that write to the context they are evaluated in (later reads must see the write, each still exactly once)
+    ef.eval_model_and_replay(run, "mutators-d1", ef.mceval_cfg("c07-mut", depth=1, full_faults=False, mutators=True), "C07")
     ef.eval_model_and_replay(run, "shapes-d2", ef.mceval_cfg("c07-d2", depth=2, full_faults=thorough, modes=("call", "bare", "mixed") if thorough else ("mixed",)), "C07")
     ef.eval_trace(run, "random", 20000 if thorough else 3000, run.seed, "C07")
     run.exhaustive = False
